@@ -21,7 +21,7 @@ use std::time::Duration;
 pub static INFO: PropInfo = PropInfo {
     id: "C19",
     level: "exploration",
-    rule: "one evaluation = one datagram handed to NetcodeServer::process_packet from an address that has no connected session at that moment (unknown or half-open), in a server that is empty, partly filled or full. Generators: valid requests (exact 1078 bytes, padded up to 1400, arbitrary unused prefix nibble, repeated, replayed from other addresses), truncated / bit-flipped / single-field-corrupted requests, requests with expired, foreign-key, foreign-protocol or wrong-host tokens (host lists one port or one address bit away from the server's own, or its IPv4-mapped form with another port), valid responses (built from the challenge the server issued), responses with corrupted or foreign challenge blobs, under a wrong key, from addresses without a half-open session, replayed after use, other sealed packet kinds, short and random strings; virtual time advances so that tokens expire. The harness minted every token and opens every challenge, so validity comes from its own ledger: valid token = the 1077 bytes after the prefix equal the request of a ledger token minted for this server (key, protocol, host list) and floor(server time) < expiry; valid response = opens as a Response under the client-to-server key of a ledger token and carries a (sequence, blob) pair this server instance issued. Oracle on the returned ServerResult: at most the one datagram of the result, addressed to the source, strictly shorter than the input, and none at all unless the input carried a valid token or a valid response. Non-trivial = the datagram came from an address without a connected session; distinct = (server fill state, generator, datagram hash).",
+    rule: "one evaluation = one datagram handed to NetcodeServer::process_packet from an address that has no connected session at that moment (unknown or half-open), in a server that is empty, partly filled or full. Generators: valid requests (exact 1078 bytes, padded up to 1400, arbitrary unused prefix nibble, repeated, replayed from other addresses), truncated / bit-flipped / single-field-corrupted requests, requests with expired, foreign-key, foreign-protocol or wrong-host tokens (host lists one port or one address bit away from the server's own, or its IPv4-mapped form with another port), valid responses (built from the challenge the server issued), responses with corrupted or foreign challenge blobs, under a wrong key, from addresses without a half-open session, replayed after use, other sealed packet kinds, short and random strings; virtual time advances so that tokens expire. The harness minted every token and opens every challenge, so validity comes from its own ledger: valid token = the 1077 bytes after the prefix equal the request of a ledger token minted for this server (key, protocol, host list) and floor(server time) < expiry; valid response = opens as a Response under the client-to-server key of a ledger token and carries a (sequence, blob) pair this server instance issued. Oracle on the returned ServerResult: at most the one datagram of the result, addressed to the source, strictly shorter than the input, and none at all unless the input carried a valid token or a valid response. Non-trivial = the datagram came from an address without a connected session; distinct = (server fill state, generator, datagram hash). One run in 40 is a HISTORY-PRESSURE run instead: more than 2048 distinct valid tokens are presented (the server's used-token table holds 2048 and replaces an oldest entry), the clock advances, token T is answered at X, 1-3 further fresh tokens follow, then T's request is replayed from Y != X and must get no answer (entries strictly older than T's exist at every later insertion, so T's binding must still be there).",
     assumptions: &[
         "a ServerResult carries at most one datagram; further output could only come from update_client, which is polled after a sample of the inputs",
         "a panic (C07's business) ends the run without a C19 verdict for that datagram",
@@ -53,6 +53,7 @@ pub static INFO: PropInfo = PropInfo {
         ("gen.corrupted-retry", 200),
         ("from.unknown", 1000),
         ("from.pending", 1000),
+        ("history_pressure_runs", 5),
     ],
     engines_quick: &["e1"],
     engines_thorough: &["e1"],
@@ -136,6 +137,9 @@ struct Input {
 /// remaining datagrams go to a freshly built one ("episode").
 pub fn one_run(ctx: &Ctx, out: &mut Outcome, run_seed: u64) {
     let mut r = Rng::new(run_seed);
+    if ctx.replay_mode.as_deref() == Some("history-pressure") || (ctx.replay_mode.is_none() && r.below(40) == 0) {
+        return history_pressure_run(ctx, out, run_seed, &mut r);
+    }
     let mut budget = r.urange(120, 220);
     let mut episodes = 0;
     while budget > 0 && episodes < 40 {
@@ -272,7 +276,9 @@ fn episode_inner(ctx: &Ctx, out: &mut Outcome, run_seed: u64, rr: &mut Rng, budg
             34..=37 if last_request_from.contains_key(&from) => {
                 let mut d = vec![0u8];
                 d.extend_from_slice(&last_request_from[&from]);
-                if r.chance(1, 2) {
+                // only a pristine request of a ledger token is corrupted: the stored datagram may itself be a corrupted
+                // or foreign request, and flipping one more bit of THAT can restore a token the ledger does not know
+                if r.chance(1, 2) && led.valid_token(&d, srv.now).is_some() {
                     // a corrupted RETRY of the very request this address sent before (nonce or sealed body,
                     // never the trailing 16 bytes): whatever the server remembers about the first one, this
                     // one carries no valid token
@@ -636,5 +642,86 @@ fn note_challenge(led: &mut Ledger, reply: &[u8], protocol: u64, i: usize) -> bo
         true
     } else {
         false
+    }
+}
+
+/// The server remembers which address first used a connect token in a table of 2048 entries and replaces an oldest
+/// entry when it is full. This run fills the table with more than 2048 distinct valid tokens, lets the clock advance,
+/// has token T answered at address X, presents 1-3 further fresh tokens, and then replays T's request from another
+/// address Y: at every insertion after T's there are entries strictly older than T's, so T's binding is still there
+/// and the replay carries no valid token for Y - it must get no answer.
+fn history_pressure_run(ctx: &Ctx, out: &mut Outcome, run_seed: u64, r: &mut Rng) {
+    let maxc = r.urange(1, 3);
+    let mut srv = new_srv(r, maxc, 1, false);
+    let n_fill = 2048 + r.urange(0, 40);
+    let mut hist: Vec<Value> = Vec::new();
+    let fail = |out: &mut Outcome, sig: &str, detail: String, hist: &Vec<Value>| {
+        out.violation(
+            ctx,
+            sig,
+            "datagrams that carry neither a valid connect token nor a valid response get no answer",
+            detail,
+            json!({"property": "C19", "engine": ctx.engine, "run_seed": format!("{:#x}", run_seed), "mode": "history-pressure", "fill_tokens": n_fill, "steps": hist}),
+        );
+    };
+    let mut answered = 0u64;
+    for i in 0..n_fill {
+        let m = mint_for(r, &srv, 1_000_000 + i as u64, 15, 600);
+        let from = nsim::addr4((i / 200) as u8 + 20, (i % 200) as u8, 10_000 + (i % 50_000) as u16);
+        let d = request_of(&m);
+        match srv.process(from, &d).outgoing() {
+            Some((dst, reply)) => {
+                answered += 1;
+                if dst != from || reply.len() >= d.len() {
+                    hist.push(json!({"fill": i, "from": from.to_string(), "to": dst.to_string(), "reply_len": reply.len()}));
+                    return fail(out, "C19/reply-not-smaller/request", format!("fill request {} from {} answered with {} bytes to {}", i, from, reply.len(), dst), &hist);
+                }
+            }
+            None => {}
+        }
+        out.eval(mix(&[0x19F1, run_seed, i as u64]), true);
+        if i % 97 == 0 && r.chance(1, 2) {
+            srv.update(Duration::from_millis(r.range(1, 20)));
+        }
+    }
+    hist.push(json!({"filled": n_fill, "answered": answered}));
+    srv.update(Duration::from_millis(1000 + r.below(2000)));
+    let t = mint_for(r, &srv, 77, 15, 600);
+    let x = nsim::addr4(9, 9, 40_001);
+    let y = if r.chance(1, 2) { nsim::addr4(9, 9, 40_002) } else { nsim::addr4(9, 10, 40_001) };
+    let dt = request_of(&t);
+    let first = srv.process(x, &dt);
+    hist.push(json!({"T_from_X": x.to_string(), "result": first.kind()}));
+    if first.outgoing().is_none() {
+        out.count("history_pressure_void_T_not_answered");
+        out.eval(mix(&[0x19F2, run_seed]), false);
+        return;
+    }
+    let extra = r.urange(1, 3);
+    for j in 0..extra {
+        if r.chance(1, 2) {
+            srv.update(Duration::from_millis(r.range(1, 300)));
+        }
+        let m = mint_for(r, &srv, 2_000_000 + j as u64, 15, 600);
+        let from = nsim::addr4(8, j as u8, 30_000 + j as u16);
+        let res = srv.process(from, &request_of(&m));
+        hist.push(json!({"fresh_token_from": from.to_string(), "result": res.kind()}));
+    }
+    let res = srv.process(y, &dt);
+    hist.push(json!({"T_replayed_from_Y": y.to_string(), "result": res.kind()}));
+    out.count("history_pressure_runs");
+    out.count("in_scope_datagrams");
+    out.eval(mix(&[0x19F3, run_seed]), true);
+    if let Some((dst, reply)) = res.outgoing() {
+        return fail(
+            out,
+            "C19/reply-to-invalid/token-used-from-other-address",
+            format!("after {} other tokens: token T was answered at {}, {} fresh tokens later its request replayed from {} was answered with {} bytes to {} ({})", n_fill, x, extra, y, reply.len(), dst, res.kind()),
+            &hist,
+        );
+    }
+    out.count("noreply.token-used-from-other-address.after-history-pressure");
+    if out.samples.len() < out.max_samples {
+        out.sample(json!({"mode": "history-pressure", "run_seed": format!("{:#x}", run_seed), "fill_tokens": n_fill, "fresh_tokens_between": extra}));
     }
 }
